@@ -153,6 +153,7 @@ Ctor(st0, bp, s) ==
               SetVar(SetVar(GovCore(st, s), s, "FISC_BAL", DVar(<< s, "INC" >>)), s, "T", DConst0)
          [] k = "Treasury" ->
               SetVar(SetVar(GovCore(st, s), s, "DEM_MON", DZero), s, "T", DZero)
+         [] k = "BareSector" -> st     \* a user's bare Sector (F, LAG_F, INC only); what it holds is stated with d.extra
          [] k = "RestOfWorld" -> st    \* a user's bare Sector placed in the ExternalSector country: its books are in the NUMERAIRE
          [] k = "PlainGovernment" ->   \* a user's own government: a bare Sector with DEM_<good> and T = '0.'
               SetVar(SetVar(st, s, "DEM_" \o d.good, DZero), s, "T", DConst0)
